@@ -462,6 +462,131 @@ struct ObsTreeView : TreeView
   long edgeLinking(U a, U b) { EP e = o.getEdgeLinking(N(a), N(b)); return e ? e->tag : NOKEY; }
 };
 
+// ------------------------------------------------------------------ node / edge indexes of the observer layer
+// The observers offer a second form of most queries that takes and returns user-visible node / edge *indexes*
+// (setNodeIndex / addNodeIndex ...) instead of objects.  An index is an arbitrary label: it has no relation with the id of
+// the node in the underlying graph.  The book gives every live node and edge object an index under one of several
+// labelings (equal to the graph ids = the usual configuration, a derangement of the ids, random small labels, labels far
+// outside the id range, the first free label chosen by the library) and keeps its own table object -> index, from which
+// the expected answers of the index forms are computed.  Index bookkeeping itself (refused / lost indexes) is not part of
+// the property: when it fails the index forms are simply not judged any more in that case (tallied).
+template<class Obs> struct IndexBook
+{
+  Obs* obs;
+  int scheme;
+  vrt::Rng rng; // private stream (seeded from a copy of the case stream: the case stream itself is not advanced)
+  bool off;
+  map<const NObj*, U> nIdx;
+  map<const EObj*, U> eIdx;
+  IndexBook() : obs(nullptr), scheme(0), off(true) {}
+  void init(Obs* o, const vrt::Rng& caseRng)
+  {
+    obs = o;
+    vrt::Rng tmp = caseRng;
+    rng.reseed(vrt::mix(tmp.next(), 0xC15C15u));
+    static const int PICK[10] = { 0, 1, 1, 2, 2, 2, 3, 3, 4, 4 };
+    scheme = PICK[rng.below(10)];
+    off = false;
+  }
+  const char* schemeName() const
+  {
+    static const char* const NAME[] = { "index=graph-id", "index=derangement-of-ids", "index=random-label", "index=outside-id-range", "index=first-free" };
+    return NAME[scheme];
+  }
+  void giveUp(const string& why) { off = true; vrt::tally("index-forms-not-judged:" + why); }
+  // label proposed for the object whose graph id / tag is k, among maxK+1 of them
+  U propose(U k, U maxK, bool edge)
+  {
+    switch (scheme)
+    {
+    case 0: return k;
+    case 1: return k ^ 1u;
+    case 2: return static_cast<U>(rng.below(2 * (static_cast<size_t>(maxK) + 2)));
+    default: return (edge ? 50u : 100u) + 3u * k;
+    }
+  }
+  // every live node object and every live edge object carries an index known to the book; false: index forms cannot be judged
+  bool ensure(const Model& m, const vector<NP>& nobj, const map<int, EP>& eobj)
+  {
+    if (off) return false;
+    vrt::Outcome o = vrt::capture([&] {
+      // nodes
+      set<U> used;
+      vector<U> todo;
+      U maxId = 0;
+      for (U v : m.nodes)
+      {
+        NP p = nobj.at(v);
+        maxId = max(maxId, v);
+        bool has = obs->hasNodeIndex(p);
+        auto it = nIdx.find(p.get());
+        if (has && it == nIdx.end()) { giveUp("node-has-an-index-nobody-gave"); return; }
+        if (!has && it != nIdx.end()) { nIdx.erase(it); vrt::tally("index-lost:node"); it = nIdx.end(); }
+        if (it != nIdx.end()) used.insert(it->second); else todo.push_back(v);
+      }
+      rng.shuffle(todo);
+      for (U v : todo)
+      {
+        NP p = nobj.at(v);
+        U idx;
+        if (scheme == 4)
+        {
+          idx = obs->addNodeIndex(p);
+          if (used.count(idx)) { giveUp("first-free-node-index-in-use"); return; }
+        }
+        else
+        {
+          idx = propose(v, maxId, false);
+          while (used.count(idx) || obs->hasNode(idx)) ++idx;
+          obs->setNodeIndex(p, idx);
+        }
+        nIdx[p.get()] = idx;
+        used.insert(idx);
+        vrt::tally(string("node-index:") + (idx == v ? "equal-to-graph-id" : m.nodes.count(idx) ? "graph-id-of-another-node" : "no-such-graph-id"));
+      }
+      // edge objects
+      used.clear();
+      vector<pair<U, int>> etodo; // (graph edge id, tag)
+      U maxTag = 0;
+      for (auto& kv : m.tags)
+      {
+        EP p = eobj.at(kv.second);
+        maxTag = max(maxTag, static_cast<U>(kv.second));
+        bool has = obs->hasEdgeIndex(p);
+        auto it = eIdx.find(p.get());
+        if (has && it == eIdx.end()) { giveUp("edge-has-an-index-nobody-gave"); return; }
+        if (!has && it != eIdx.end()) { eIdx.erase(it); vrt::tally("index-lost:edge"); it = eIdx.end(); } // e.g. the object moved with setFather
+        if (it != eIdx.end()) used.insert(it->second); else etodo.push_back(make_pair(kv.first, kv.second));
+      }
+      rng.shuffle(etodo);
+      for (auto& et : etodo)
+      {
+        EP p = eobj.at(et.second);
+        U idx;
+        if (scheme == 4)
+        {
+          idx = obs->addEdgeIndex(p);
+          if (used.count(idx)) { giveUp("first-free-edge-index-in-use"); return; }
+        }
+        else
+        {
+          // harness-given edge ids are >= 1000 (the index table is a vector): those are labelled by their tag
+          idx = propose(scheme == 0 && et.first < 200 ? et.first : static_cast<U>(et.second), maxTag, true);
+          while (used.count(idx) || obs->hasEdge(idx)) ++idx;
+          obs->setEdgeIndex(p, idx);
+        }
+        eIdx[p.get()] = idx;
+        used.insert(idx);
+        vrt::tally(string("edge-index:") + (idx == et.first ? "equal-to-graph-id" : m.edges.count(idx) ? "graph-id-of-another-edge" : "no-such-graph-id"));
+      }
+    });
+    if (!o.returned() && !off) giveUp("index-assignment-raised");
+    return !off;
+  }
+  U n(const NP& p) const { return nIdx.at(p.get()); }
+  U e(const EP& p) const { return eIdx.at(p.get()); }
+};
+
 // ------------------------------------------------------------------ checking machinery
 struct Ctx
 {
@@ -780,6 +905,7 @@ struct TreeSut
   Ctx c;
   unique_ptr<TreeView> pv, ov;
   vrt::Rng& rng;
+  IndexBook<TreeObs> ib; // observer layer: node / edge indexes for the index forms of the queries
 
   TreeSut(bool observerLayer, vrt::Rng& r) : obsLayer(observerLayer), nextTag(1), nextExplicit(1000), rng(r)
   {
@@ -792,6 +918,7 @@ struct TreeSut
       EP dummy(new EObj(0));
       vrt::capture([&] { obs->associateEdge(dummy, 2999); });
       ov.reset(new ObsTreeView(*obs, nobj));
+      ib.init(obs.get(), r);
     }
     else g.reset(new TreeGlobalGraph(true));
     pv.reset(new PlainTreeView(*g));
@@ -1182,6 +1309,83 @@ struct TreeSut
     RTree t(m);
     for (TreeView* v : views()) checkTreeQueries(*v, m, t, p, c);
     if (obsLayer && !c.endsStale) checkEdgeEnds();
+    if (obsLayer) checkIndexForms(t, p);
+  }
+  // object level, index forms: the same queries asked with the *index* of the node / edge object and answered in indexes.
+  // An index is a label given by the user (here by the IndexBook, under several labelings): the answers must be the
+  // definitions' answers translated through the book's own table, whatever the relation between indexes and graph ids.
+  // Driven: every index overload of the tree observer that can be instantiated (getNodePathBetweenTwoNodes,
+  // getEdgePathBetweenTwoNodes and getSubtreeNodes by index do not compile: unqualified dependent name / wrong arity).
+  void checkIndexForms(const RTree& t, const QueryPlan& plan)
+  {
+    if (!ib.ensure(m, nobj, eobj)) return;
+    const string K = "observer-index";
+    const string labels = ib.schemeName();
+    vrt::cover("index-forms:tree:" + labels);
+    auto NI = [&](U v) { return ib.n(nobj.at(v)); };
+    auto EI = [&](U e) { return ib.e(eobj.at(m.tagOf(e))); };
+    auto NIs = [&](const vector<U>& vs) { vector<U> r; for (U v : vs) r.push_back(NI(v)); return sorted(r); };
+    auto table = [&] {
+      string s = " {node:index";
+      for (U v : m.nodes) s += " " + str(v) + ":" + str(NI(v));
+      s += "; edge#tag:index";
+      for (auto& kv : m.tags) s += " " + str(kv.first) + "#" + str(kv.second) + ":" + str(EI(kv.first));
+      return s + "}";
+    };
+    auto W = [&](const string& w) { return c.hist + " => [" + K + ", " + labels + "] " + w + table() + "; model " + m.text(); };
+    set<U> seenNodes;
+    for (U x : plan.nodes)
+    {
+      if (!seenNodes.insert(x).second) continue;
+      const string kind = t.kindOf(x), sx = "index " + str(NI(x)) + " = node " + str(x);
+      const U ix = NI(x);
+      bool hf = false;
+      if (callQ("tree.father", K + ":hasFather", c, "hasFather(" + sx + ")", hf, [&] { return obs->hasFather(ix); }))
+        CHK(hf == t.hasFather(x), "tree.father", K + ":hasFather:" + kind, W("hasFather(" + sx + ")=" + str(hf)));
+      if (t.hasFather(x))
+      {
+        long ek = m.tagOf(t.parEdge.at(x)), k = 0;
+        if (callQ("tree.edgeToFather", K, c, "getEdgeToFather(" + sx + ")", k, [&] { EP e = obs->getEdgeToFather(ix); return e ? static_cast<long>(e->tag) : NOKEY; }))
+          CHK(k == ek, "tree.edgeToFather", K + (ek == NOKEY ? ":edge-without-object" : ""), W("getEdgeToFather(" + sx + ") gives object #" + str(k) + " expected #" + str(ek)));
+      }
+      const vector<U>& kids = t.kids.at(x);
+      vector<U> s, b, eb, es = NIs(kids);
+      for (U k : kids) if (m.tagOf(t.parEdge.at(k)) >= 0) eb.push_back(EI(t.parEdge.at(k)));
+      sort(eb.begin(), eb.end());
+      if (callQ("tree.sons", K + ":getSons", c, "getSons(" + sx + ")", s, [&] { return obs->getSons(ix); }))
+        CHK(sorted(s) == es, "tree.sons", K + ":getSons:" + kind, W("getSons(" + sx + ")=" + lst(s) + " expected indexes " + lst(es)));
+      if (callQ("tree.branches", K + ":getBranches", c, "getBranches(" + sx + ")", b, [&] { return obs->getBranches(ix); }))
+        CHK(sorted(b) == eb, "tree.branches", K + ":getBranches:" + kind, W("getBranches(" + sx + ")=" + lst(b) + " expected edge indexes " + lst(eb)));
+      {
+        vector<U> lv, el = NIs(t.leavesUnder(x));
+        const string cls = K + ":" + kind + (t.unaryBelow(x) ? ":unary-node-below" : "");
+        if (callQ("tree.leavesUnder", cls, c, "getLeavesUnderNode(" + sx + ")", lv, [&] { return obs->getLeavesUnderNode(ix); }))
+        {
+          CHK(sorted(lv) == el || (kids.empty() && lv.empty()), "tree.leavesUnder", cls, W("getLeavesUnderNode(" + sx + ")=" + lst(lv) + " expected indexes " + lst(el)));
+          vrt::cover("leavesUnder:" + cls);
+        }
+      }
+      if (!c.endsStale)
+      {
+        vector<U> se, ee;
+        for (U e : t.subtreeEdges(x)) if (m.tagOf(e) >= 0) ee.push_back(EI(e));
+        sort(ee.begin(), ee.end());
+        if (callQ("tree.subtreeEdges", K + ":" + kind, c, "getSubtreeEdges(" + sx + ")", se, [&] { return obs->getSubtreeEdges(ix); }))
+          CHK(sorted(se) == ee, "tree.subtreeEdges", K + ":" + kind, W("getSubtreeEdges(" + sx + ")=" + lst(se) + " expected edge indexes " + lst(ee)));
+      }
+    }
+    if (c.endsStale) return;
+    for (auto& e : m.edges)
+    {
+      if (m.tagOf(e.first) < 0) continue;
+      const U ie = EI(e.first);
+      const string se = "edge index " + str(ie) + " = edge " + str(e.first);
+      U s = 0, f = 0;
+      if (callQ("tree.edge-ends", K + ":getSon", c, "getSon(" + se + ")", s, [&] { return obs->getSon(ie); }))
+        CHK(s == NI(e.second.second), "tree.edge-ends", K + ":getSon", W("getSon(" + se + ")=" + str(s) + " expected index " + str(NI(e.second.second))));
+      if (callQ("tree.edge-ends", K + ":getFatherOfEdge", c, "getFatherOfEdge(" + se + ")", f, [&] { return obs->getFatherOfEdge(ie); }))
+        CHK(f == NI(e.second.first), "tree.edge-ends", K + ":getFatherOfEdge", W("getFatherOfEdge(" + se + ")=" + str(f) + " expected index " + str(NI(e.second.first))));
+    }
   }
   // object level: the son / father end of every edge object
   void checkEdgeEnds()
@@ -1571,6 +1775,7 @@ struct DagSut
   Ctx c;
   vrt::Rng& rng;
   bool structEvery; // compare the raw structure after every edit (histories) or only when asked (bulk enumeration)
+  IndexBook<DagObs> ib; // observer layer: node / edge indexes for the index forms of the queries
 
   DagSut(bool observerLayer, vrt::Rng& r, bool se) : obsLayer(observerLayer), nextTag(1), nextExplicit(1000), rng(r), structEvery(se)
   {
@@ -1580,6 +1785,7 @@ struct DagSut
       g = obs->getGraph();
       EP dummy(new EObj(0));
       vrt::capture([&] { obs->associateEdge(dummy, 2999); }); // see TreeSut
+      ib.init(obs.get(), r);
     }
     else g.reset(new DAGlobalGraph());
   }
@@ -1820,6 +2026,52 @@ struct DagSut
         if (callQ("dag.below", K + ":getBelowEdges", c, "getBelowEdges(" + sx + ")", be, [&] { vector<U> r; for (auto& p : obs->getBelowEdges(nobj.at(x))) r.push_back(p ? static_cast<U>(p->tag) : ~0u); return r; }))
           CHK(asSet(be) == sorted(et), "dag.below", K + ":getBelowEdges", W("getBelowEdges(" + sx + ") gives objects " + lst(be) + " expected " + lst(et)));
       }
+    }
+    if (obsLayer) checkIndexForms(which);
+  }
+  // index forms of the DAG observer (see TreeSut::checkIndexForms): fathers / sons of a node index, ends of an edge index
+  void checkIndexForms(const vector<U>& which)
+  {
+    if (!ib.ensure(m, nobj, eobj)) return;
+    const string K = "observer-index";
+    const string labels = ib.schemeName();
+    vrt::cover("index-forms:dag:" + labels);
+    auto NI = [&](U v) { return ib.n(nobj.at(v)); };
+    auto EI = [&](U e) { return ib.e(eobj.at(m.tagOf(e))); };
+    auto NIs = [&](const vector<U>& vs) { vector<U> r; for (U v : vs) r.push_back(NI(v)); return sorted(r); };
+    auto table = [&] {
+      string s = " {node:index";
+      for (U v : m.nodes) s += " " + str(v) + ":" + str(NI(v));
+      s += "; edge#tag:index";
+      for (auto& kv : m.tags) s += " " + str(kv.first) + "#" + str(kv.second) + ":" + str(EI(kv.first));
+      return s + "}";
+    };
+    auto W = [&](const string& w) { return c.hist + " => [" + K + ", " + labels + "] " + w + table() + "; model " + m.text(); };
+    set<U> seenNodes;
+    for (U x : which)
+    {
+      if (!seenNodes.insert(x).second) continue;
+      const U ix = NI(x);
+      const string sx = "index " + str(ix) + " = node " + str(x);
+      vector<U> fa, so, efa = NIs(m.inN(x)), eso = NIs(m.outN(x));
+      bool hf = false;
+      if (callQ("dag.fathers", K, c, "getFathers(" + sx + ")", fa, [&] { return obs->getFathers(ix); }))
+        CHK(sorted(fa) == efa, "dag.fathers", K + ":getFathers", W("getFathers(" + sx + ")=" + lst(fa) + " expected indexes " + lst(efa)));
+      if (callQ("dag.fathers", K, c, "hasFather(" + sx + ")", hf, [&] { return obs->hasFather(ix); }))
+        CHK(hf == !efa.empty(), "dag.fathers", K + ":hasFather", W("hasFather(" + sx + ")=" + str(hf)));
+      if (callQ("dag.sons", K, c, "getSons(" + sx + ")", so, [&] { return obs->getSons(ix); }))
+        CHK(sorted(so) == eso, "dag.sons", K + ":getSons", W("getSons(" + sx + ")=" + lst(so) + " expected indexes " + lst(eso)));
+    }
+    for (auto& e : m.edges)
+    {
+      if (m.tagOf(e.first) < 0) continue;
+      const U ie = EI(e.first);
+      const string se = "edge index " + str(ie) + " = edge " + str(e.first);
+      U s = 0, f = 0;
+      if (callQ("dag.edge-ends", K + ":getSon", c, "getSon(" + se + ")", s, [&] { return obs->getSon(ie); }))
+        CHK(s == NI(e.second.second), "dag.edge-ends", K + ":getSon", W("getSon(" + se + ")=" + str(s) + " expected index " + str(NI(e.second.second))));
+      if (callQ("dag.edge-ends", K + ":getFatherOfEdge", c, "getFatherOfEdge(" + se + ")", f, [&] { return obs->getFatherOfEdge(ie); }))
+        CHK(f == NI(e.second.first), "dag.edge-ends", K + ":getFatherOfEdge", W("getFatherOfEdge(" + se + ")=" + str(f) + " expected index " + str(NI(e.second.first))));
     }
   }
 };
